@@ -1,5 +1,6 @@
 """C15 -- Printed forms are exact ISO-8601 and parse back to the same value."""
 import json
+import re
 import os
 from .. import common
 from .C06 import tlc_table
@@ -26,6 +27,10 @@ def run(tier):
     seen = set()
     for ln in out.splitlines():
         f = ln.split(' ')
+        k = 1
+        while k < len(f) - 1 and re.fullmatch(r'-?\d+', f[k]):
+            k += 1
+        f = f[:k] + [' '.join(f[k:])]      # (the printed text is the rest of the line: a placeholder contains a space)
         key = tuple([f[0]] + [int(x) for x in f[1:-1]])
         seen.add(key)
         want = spec.get(key)
